@@ -6,7 +6,10 @@
     the order of the tuple returned by Candidate.tag_score, the impl_score_defaults table and
     the shift constants of _py_version_score, the order (and guards) of the tests of
     check_usability, whether _check_abi_compatibility and tag_score's abi_score treat the ABI
-    field as one string or as a dot-separated tag set (commit c54d5f0).
+    field as one string or as a dot-separated tag set (commit c54d5f0); how
+    manylinux_tag_is_compatible_with_this_system and tag_score re-spell legacy manylinux tags (not at all /
+    LEGACY_ALIASES table / _normalize_manylinux + LEGACY_MANYLINUX prefix table, whose body is matched literally);
+    whether the platform "any" resets plat_score or takes the maximum; the file-name element of sortkey.
 
 and writes coq/gen/ConstsC20.v.  The model (model/TagsC20.v) interprets these definitions; the
 obligations the theorems need about them are in proofs/TagsC20P.v (section "generated constants").
@@ -77,6 +80,12 @@ def read_sortkey(mod: ast.Module) -> List[str]:
         raise TranslateError("Candidate.sortkey: expected `return self._sortkey`")
     out = []
     for e in tuples[0].elts:
+        if isinstance(e, ast.IfExp):
+            # the file name as the last resort tie breaker (fix of C20-rank-tie)
+            if ast.unparse(e) != "self.filename if isinstance(self.filename, str) else ''":
+                raise TranslateError("Candidate.sortkey: unknown conditional element " + ast.unparse(e))
+            out.append("FFilename")
+            continue
         a = _self_attr(e)
         if a not in SORT_FIELDS:
             raise TranslateError(f"Candidate.sortkey: unknown field self.{a}")
@@ -242,6 +251,64 @@ def read_abi_score(mod: ast.Module) -> bool:
     return ABI_SCORE_SHAPES[key]
 
 
+ALIAS_CALLS = {"LEGACY_ALIASES.get({0}, {0})": "ATable", "_normalize_manylinux({0})": "APrefix"}
+NORMALIZE_BODY = [
+    "legacy, sep, arch = tag.partition('_')",
+    "if sep and legacy in LEGACY_MANYLINUX:\n    return LEGACY_MANYLINUX[legacy] + '_' + arch",
+    "return tag",
+]
+
+
+def _alias_mode(fn: ast.FunctionDef, var: str) -> str:
+    """How the function spells legacy manylinux tags before matching MANYLINUX_REGEX against `var`: not at all,
+    through the LEGACY_ALIASES table (full tag -> full tag), or through _normalize_manylinux (prefix table)."""
+    modes = []
+    match_seen_before = False
+    for n in ast.walk(fn):
+        if isinstance(n, ast.Assign) and len(n.targets) == 1 and isinstance(n.targets[0], ast.Name) and n.targets[0].id == var:
+            src = ast.unparse(n.value)
+            for pat, mode in ALIAS_CALLS.items():
+                if src == pat.format(var):
+                    modes.append((n.lineno, mode))
+    matches = [n.lineno for n in ast.walk(fn) if isinstance(n, ast.Call) and ast.unparse(n.func) == "re.match"
+               and len(n.args) == 2 and ast.unparse(n.args[0]) == "MANYLINUX_REGEX" and ast.unparse(n.args[1]) == var]
+    if len(matches) != 1:
+        raise TranslateError(f"{fn.name}: expected exactly one re.match(MANYLINUX_REGEX, {var})")
+    if len(modes) > 1:
+        raise TranslateError(f"{fn.name}: {var} is re-spelled more than once")
+    if modes and modes[0][0] >= matches[0]:
+        raise TranslateError(f"{fn.name}: the alias is applied after the regex match")
+    return modes[0][1] if modes else "ANone"
+
+
+def read_alias(mod: ast.Module) -> Dict[str, Any]:
+    usab = _alias_mode(T.func(mod, "manylinux_tag_is_compatible_with_this_system"), "tag")
+    score = _alias_mode(_method(T.klass(mod, "Candidate"), "tag_score"), "plat")
+    table: List[Tuple[str, str]] = []
+    if "APrefix" in (usab, score):
+        f = T.func(mod, "_normalize_manylinux")
+        body = [ast.unparse(st) for st in f.body if not (isinstance(st, ast.Expr) and isinstance(st.value, ast.Constant))]
+        if [a.arg for a in f.args.args] != ["tag"] or body != NORMALIZE_BODY:
+            raise TranslateError("_normalize_manylinux: unrecognised body " + repr(body)[:300])
+        table = _dict_of_strs(mod, "LEGACY_MANYLINUX")
+    return {"usability": usab, "score": score, "prefix_table": table}
+
+
+def read_any_step(mod: ast.Module) -> bool:
+    """tag_score, platform "any": does it assign plat_score = 0 (True) or take max(plat_score, 0) (False)?"""
+    f = _method(T.klass(mod, "Candidate"), "tag_score")
+    found = []
+    for n in ast.walk(f):
+        if isinstance(n, ast.If) and ast.unparse(n.test) == "plat == 'any'":
+            found.append([ast.unparse(st) for st in n.body])
+    if len(found) != 1 or len(found[0]) != 2 or found[0][1] != "continue":
+        raise TranslateError("Candidate.tag_score: unexpected handling of the platform 'any': " + repr(found)[:200])
+    shapes = {"plat_score = 0": True, "plat_score = max(plat_score, 0)": False}
+    if found[0][0] not in shapes:
+        raise TranslateError("Candidate.tag_score: unexpected statement for 'any': " + found[0][0])
+    return shapes[found[0][0]]
+
+
 def gen_consts() -> str:
     mod = T.parse(REL)
     interp = _dict_of_strs(mod, "INTERPRETER_TAGS")
@@ -257,6 +324,8 @@ def gen_consts() -> str:
     pys = read_py_score(mod)
     abi_test = read_abi_test(mod)
     abi_score = read_abi_score(mod)
+    alias = read_alias(mod)
+    any_resets = read_any_step(mod)
 
     def pairs(l):
         return T.coq_list([f"({T.coq_str(a)}, {T.coq_str(b)})" for a, b in l])
@@ -265,6 +334,10 @@ def gen_consts() -> str:
     body += "From RC Require Import model.TypesC20.\nOpen Scope Z_scope.\n"
     body += "Definition interpreter_tags : list (string * string) := " + pairs(interp) + ".\n"
     body += "Definition legacy_aliases : list (string * string) :=\n  " + pairs(legacy) + ".\n"
+    body += "Definition legacy_manylinux : list (string * string) := " + pairs(alias["prefix_table"]) + ".\n"
+    body += "Definition alias_mode_usability : amode := " + alias["usability"] + ".\n"
+    body += "Definition alias_mode_score : amode := " + alias["score"] + ".\n"
+    body += "Definition any_resets : bool := " + ("true" if any_resets else "false") + ".\n"
     body += "Definition manylinux_regex : string := " + T.coq_str(regex) + ".\n"
     body += "Definition sortkey_fields : list sfield := " + T.coq_list(sortkey) + ".\n"
     body += "Definition sort_reverse : bool := " + ("true" if reverse else "false") + ".\n"
